@@ -25,11 +25,11 @@ void harness(void)
     c14_sv_any(&v, m, vals);
     C14_SV_AT(&v, m);       /* the slot push_back constructs */
     C14_SV_AT(&v, alias);   /* the element passed as argument */
-    ELEM x = {val, ELEM_LIVE};
+    ELEM x; ELEM_SET(&x, ELEM_LIVE, val);
     const ELEM *obj = alias < m ? &v._data[alias] : &x;   /* the argument: a separate object or one of v's own elements */
     int objv = obj->v;
     ELEM *storage = v._data;
-    ELEM old_k = {0, 0};
+    ELEM old_k; ELEM_SET(&old_k, ELEM_RAW, 0);
     if (k < cap) old_k = v._data[k];
 
     if (op) static_vector_push_back(&v, obj);
@@ -38,12 +38,12 @@ void harness(void)
     V(__CPROVER_assert(v._data == storage, "storage pointer untouched");)
     V(__CPROVER_assert(v.m_size == (m < cap ? m + 1 : cap), "size' == min(size + 1, N): appended within capacity, dropped when full");)
     V(__CPROVER_assert(SV_SIZE_OK(&v), "SV: m_size <= N");)
-    V(__CPROVER_assert(x.v == val && x.g_state == ELEM_LIVE, "the argument object is untouched");)
+    V(__CPROVER_assert(ELEM_V(&x) == val && ELEM_ST(&x) == ELEM_LIVE, "the argument object is untouched");)
     if (k < cap) {
-        if (k == m) V(__CPROVER_assert(v._data[k].v == objv, "the new last element has the argument's value");)
-        else V(__CPROVER_assert(v._data[k].v == old_k.v, "every other element keeps its value (prefix kept)");)
+        if (k == m) V(__CPROVER_assert(ELEM_V(&v._data[k]) == objv, "the new last element has the argument's value");)
+        else V(__CPROVER_assert(ELEM_V(&v._data[k]) == ELEM_V(&old_k), "every other element keeps its value (prefix kept)");)
         L(__CPROVER_assert(SV_SLOT_OK(&v, k), "SV: slots below m_size LIVE, the others RAW");)
-        if (k != m) L(__CPROVER_assert(v._data[k].g_state == old_k.g_state, "no other slot changes its lifetime state");)
+        if (k != m) L(__CPROVER_assert(ELEM_ST(&v._data[k]) == ELEM_ST(&old_k), "no other slot changes its lifetime state");)
     }
     CANARY("push_back/emplace_back end reachable");
 }
